@@ -7,8 +7,9 @@ VERUS = 'verus'
 def run_verus(gen_path, rlimit=None, threads=8, extra=None, timeout=1800):
     cmd = [VERUS, gen_path, '--output-json', '--time', '--triggers-mode', 'silent',
            '--multiple-errors', '4', '--num-threads', str(threads)]
-    if rlimit:
-        cmd += ['--rlimit', str(rlimit)]
+    # a generous resource limit: an obligation that needs more than the default on one run and less on another would make the
+    # check flaky; failures (twins included) are still reported as failures
+    cmd += ['--rlimit', str(rlimit or 30)]
     if extra:
         cmd += extra
     cmd += ['--', '--error-format=json']
